@@ -5,5 +5,5 @@ From Coq Require Import String.
 From QSCGen Require Import G_pins.
 Open Scope string_scope.
 
-Lemma pin_to_Fourier_current : pin_to_Fourier = "f43d3a83ecf76d980b1ce6b073fed5166b1ec5b23ea2fb39b6b17a5b71353ccc".
+Lemma pin_to_Fourier_current : pin_to_Fourier = "1559151540d9689b6a3cfafbbe0bc8cef067a5faf77d05be11d7824070ed4ef3".
 Proof. reflexivity. Qed.
